@@ -178,19 +178,18 @@ theorem bhOf_kq {F p eb} (lay : Layout F p eb) (hden : F.C.denormalExponent = 1 
     rw [h64]; omega
   · omega
 
-/-- **`negative_digit_comp_correct`** on the model (even radix `radix = 2·h`, the radices with a digit limit).
-`fp`: normalised significand, exponent not below the underflow cut; `b = k·2^(p−1) + q` its round-down, finite;
-the value `M / radix^j` (`j = −e > 0`) is bracketed by `b` and `next(b)` (in units of `2^−L`); the two big
-integers fit (`hfitT`, `hfitR`: the capacity guard). Then no panic, a valid float, bits = `roundNE (M / radix^j)`. -/
-theorem negativeDigitComp_correct {F p eb} (lay : Layout F p eb)
+/-- the computation of `negative_digit_comp`, with the rounding decision abstracted: whatever tells that `roundNE` of the
+value is `b` plus the increment the exact comparison with `b + h` dictates (`hfinal`) makes the call correct. -/
+theorem negativeDigitComp_core {F p eb} (lay : Layout F p eb)
     (hden : F.C.denormalExponent = 1 - F.C.exponentBias) {E : Env} (hdbg : E.debug = false)
     {radix h : Nat} (hr : radix = 2 * h) (Th : BigPowOk E h) (T2 : BigPowOk E 2)
     {M : Nat} (hM : M ≠ 0) (fp : ExtendedFloat80) (hm1 : 2 ^ 63 ≤ fp.mant) (hm2 : fp.mant < 2 ^ 64)
     (hp2 : -fp.exp + 1 ≤ 64) (hfe : fp.exp < 2 ^ 20) {e : Int} (he : e < 0) (he' : -(2 ^ 28 : Int) < e)
     (k q : Nat) (hk : k = (fp.exp + 64 - p - 1).toNat) (hq : q = fp.mant / 2 ^ shiftOf p fp.exp)
     (hfin : k * 2 ^ (p - 1) + q < F.fmt.infBits)
-    (hlo : q * 2 ^ k * radix ^ (-e).toNat ≤ M * 2 ^ L F.fmt)
-    (hhi : M * 2 ^ L F.fmt ≤ (q + 1) * 2 ^ k * radix ^ (-e).toNat)
+    (hfinal : roundNE F.fmt M (radix ^ (-e).toNat) = encode F.fmt k
+      (q + if ordUp (compare (2 * (M * 2 ^ L F.fmt)) ((2 * q + 1) * 2 ^ k * radix ^ (-e).toNat)) (decide (q % 2 = 1))
+        then 1 else 0))
     (hfitT : (2 * q + 1) * h ^ (-e).toNat * 2 ^ ((k : Int) - F.C.exponentBias - e).toNat < 2 ^ (64 * E.L.bigintLimbs))
     (hfitR : M * 2 ^ (-((k : Int) - F.C.exponentBias - e)).toNat < 2 ^ (64 * E.L.bigintLimbs)) :
     ∃ r, negativeDigitComp E F radix M fp e = some r ∧ 0 ≤ r.exp ∧
@@ -225,7 +224,7 @@ theorem negativeDigitComp_correct {F p eb} (lay : Layout F p eb)
   obtain ⟨j, hj⟩ : ∃ j : Nat, -e = (j : Int) := ⟨(-e).toNat, by omega⟩
   have hjpos : 0 < j := by omega
   have hjn : (-e).toNat = j := by omega
-  rw [hjn] at hlo hhi hfitT ⊢
+  rw [hjn] at hfinal hfitT ⊢
   generalize hbe : (k : Int) - F.C.exponentBias - e = be at *
   have hkb : (k : Int) < 2 ^ 20 + 64 := by omega
   have hrad2 : radix % 2 = 0 := by omega
@@ -259,8 +258,6 @@ theorem negativeDigitComp_correct {F p eb} (lay : Layout F p eb)
   have hmid : (2 * q + 1) * h ^ j * 2 ^ (k + j) = (2 * q + 1) * 2 ^ k * radix ^ j := by
     rw [hr, Nat.mul_pow, Nat.pow_add]; ring
   rw [hmid] at hcmp
-  have hfinal := roundNE_of_bracket lay.wf (Nat.pow_pos hradpos : 0 < radix ^ j) k q
-    (by rw [hfp]; exact h1) (by rw [hfp]; exact qb) hlo hhi
   obtain ⟨r1, r2⟩ := round_bits lay fp.mant fp.exp
     (fun isOdd _ _ => ordUp (compare (M * 2 ^ (-be).toNat) ((2 * q + 1) * h ^ j * 2 ^ be.toNat)) isOdd) hm1 hm2 hp2
   rw [← hk, ← hq] at r2
@@ -291,5 +288,131 @@ theorem negativeDigitComp_correct {F p eb} (lay : Layout F p eb)
       have e1 : (-be).toNat = 0 := by omega
       rw [e0, e1, Nat.pow_zero, Nat.mul_one, Nat.mul_one] at r1 r2
       exact ⟨_, rfl, r1, r2⟩
+
+/-- **`negative_digit_comp_correct`** on the model (even radix `radix = 2·h`, the radices with a digit limit).
+`fp`: normalised significand, exponent not below the underflow cut; `b = k·2^(p−1) + q` its round-down, finite;
+the value `M / radix^j` (`j = −e > 0`) is bracketed by `b` and `next(b)` (in units of `2^−L`); the two big
+integers fit (`hfitT`, `hfitR`: the capacity guard). Then no panic, a valid float, bits = `roundNE (M / radix^j)`. -/
+theorem negativeDigitComp_correct {F p eb} (lay : Layout F p eb)
+    (hden : F.C.denormalExponent = 1 - F.C.exponentBias) {E : Env} (hdbg : E.debug = false)
+    {radix h : Nat} (hr : radix = 2 * h) (Th : BigPowOk E h) (T2 : BigPowOk E 2)
+    {M : Nat} (hM : M ≠ 0) (fp : ExtendedFloat80) (hm1 : 2 ^ 63 ≤ fp.mant) (hm2 : fp.mant < 2 ^ 64)
+    (hp2 : -fp.exp + 1 ≤ 64) (hfe : fp.exp < 2 ^ 20) {e : Int} (he : e < 0) (he' : -(2 ^ 28 : Int) < e)
+    (k q : Nat) (hk : k = (fp.exp + 64 - p - 1).toNat) (hq : q = fp.mant / 2 ^ shiftOf p fp.exp)
+    (hfin : k * 2 ^ (p - 1) + q < F.fmt.infBits)
+    (hlo : q * 2 ^ k * radix ^ (-e).toNat ≤ M * 2 ^ L F.fmt)
+    (hhi : M * 2 ^ L F.fmt ≤ (q + 1) * 2 ^ k * radix ^ (-e).toNat)
+    (hfitT : (2 * q + 1) * h ^ (-e).toNat * 2 ^ ((k : Int) - F.C.exponentBias - e).toNat < 2 ^ (64 * E.L.bigintLimbs))
+    (hfitR : M * 2 ^ (-((k : Int) - F.C.exponentBias - e)).toNat < 2 ^ (64 * E.L.bigintLimbs)) :
+    ∃ r, negativeDigitComp E F radix M fp e = some r ∧ 0 ≤ r.exp ∧
+      extendedToFloat F r = roundNE F.fmt M (radix ^ (-e).toNat) := by
+  have hp := lay.hp; have hp64 := lay.hp64; have heb := lay.heb
+  have hfp : F.fmt.p = p := by rw [lay.fmt]
+  obtain ⟨qa, qb, qc, qd, qe⟩ := quot_bounds hp (by omega) hm1 hm2 fp.exp hp2
+  rw [← hk, ← hq] at qa
+  rw [← hq] at qb
+  have hhpos : 0 < h := by
+    have := Th.split
+    apply Nat.pos_of_ne_zero; intro h0
+    rw [h0] at this
+    split at this <;> simp_all
+  exact negativeDigitComp_core lay hden hdbg hr Th T2 hM fp hm1 hm2 hp2 hfe he he' k q hk hq hfin
+    (roundNE_of_bracket lay.wf (Nat.pow_pos (by omega) : 0 < radix ^ (-e).toNat) k q
+      (by rw [hfp]; exact fun h0 => (qa h0).2.1) (by rw [hfp]; exact qb) hlo hhi) hfitT hfitR
+
+/-- the rounding decision under the **weak** bracket of the pipeline (`Props.C01.Bracket`): the correctly rounded value is
+`b` or its successor (as bit patterns) — all `negative_digit_comp` needs: the exact comparison with `b + h` then tells
+which, by the cell characterisation of `roundNE` -/
+theorem roundNE_of_weak_bracket {f : Fmt} (hf : WF f) {num den : Nat} (hd : 0 < den) (k q : Nat)
+    (h1 : 0 < k → 2 ^ (f.p - 1) ≤ q) (h2 : q < 2 * 2 ^ (f.p - 1))
+    (hfin : k * 2 ^ (f.p - 1) + q < f.infBits)
+    (hlo : k * 2 ^ (f.p - 1) + q ≤ roundNE f num den) (hhi : roundNE f num den ≤ k * 2 ^ (f.p - 1) + q + 1) :
+    roundNE f num den = encode f k
+      (q + if ordUp (compare (2 * (num * 2 ^ L f)) ((2 * q + 1) * 2 ^ k * den)) (decide (q % 2 = 1)) then 1 else 0) := by
+  have cell := inCell_roundNE hf num (Nat.ne_of_gt hd)
+  have hi1 : ival f (k * 2 ^ (f.p - 1) + q) = q * 2 ^ k := ival_kq f k q h1 (by omega)
+  have hi2 : ival f (k * 2 ^ (f.p - 1) + q + 1) = (q + 1) * 2 ^ k := by
+    rw [Nat.add_assoc]; exact ival_kq f k (q + 1) (fun h0 => by have := h1 h0; omega) (by omega)
+  have hmid : den * (ival f (k * 2 ^ (f.p - 1) + q) + ival f (k * 2 ^ (f.p - 1) + q + 1)) =
+      (2 * q + 1) * 2 ^ k * den := by rw [hi1, hi2]; ring
+  obtain ⟨t, hT, _⟩ := T_even hf
+  have hpar : (k * 2 ^ (f.p - 1) + q) % 2 = q % 2 := by
+    rw [hT, show k * (2 * t) = 2 * (k * t) by ring]; omega
+  -- the unclamped encodings
+  have enc0 : encode f k q = k * 2 ^ (f.p - 1) + q := by unfold encode; rw [if_neg (by omega)]
+  have enc1 : encode f k (q + 1) = k * 2 ^ (f.p - 1) + q + 1 := by
+    unfold encode
+    split
+    · omega
+    · omega
+  generalize hb : k * 2 ^ (f.p - 1) + q = b at *
+  generalize hN : num * 2 ^ L f = N at *
+  generalize hr : roundNE f num den = r at *
+  have hcases : r = b ∨ r = b + 1 := by omega
+  rcases Nat.lt_trichotomy (2 * N) ((2 * q + 1) * 2 ^ k * den) with hc | hc | hc
+  · rw [Nat.compare_eq_lt.mpr hc]
+    simp only [ordUp, Bool.false_eq_true, if_false, Nat.add_zero]
+    rw [enc0]
+    rcases hcases with h | h
+    · exact h
+    · exfalso
+      have := cell.lower (by omega)
+      rw [h, Nat.add_sub_cancel, hmid] at this
+      omega
+  · rw [Nat.compare_eq_eq.mpr hc]
+    by_cases hodd : q % 2 = 1
+    · simp only [ordUp, hodd, decide_true, if_true]
+      rw [enc1]
+      rcases hcases with h | h
+      · exfalso
+        have := cell.upper_tie (by omega) (by rw [h, hmid]; exact hc)
+        rw [h] at this; omega
+      · exact h
+    · simp only [ordUp, hodd, decide_false, Bool.false_eq_true, if_false, Nat.add_zero]
+      rw [enc0]
+      rcases hcases with h | h
+      · exact h
+      · exfalso
+        have := cell.lower_tie (by omega) (by rw [h, Nat.add_sub_cancel, hmid]; exact hc.symm)
+        rw [h] at this; omega
+  · rw [Nat.compare_eq_gt.mpr hc]
+    simp only [ordUp, if_true]
+    rw [enc1]
+    rcases hcases with h | h
+    · exfalso
+      have := cell.upper (by omega)
+      rw [h, hmid] at this
+      omega
+    · exact h
+
+/-- **`negative_digit_comp_correct`, weak-bracket form**: as `negativeDigitComp_correct`, with the precondition of the
+pipeline theorem — `b ≤ roundNE (M/radix^j) ≤ b + 1` as bit patterns, `b` the round-down of the error float -/
+theorem negativeDigitComp_correct_weak {F p eb} (lay : Layout F p eb)
+    (hden : F.C.denormalExponent = 1 - F.C.exponentBias) {E : Env} (hdbg : E.debug = false)
+    {radix h : Nat} (hr : radix = 2 * h) (Th : BigPowOk E h) (T2 : BigPowOk E 2)
+    {M : Nat} (hM : M ≠ 0) (fp : ExtendedFloat80) (hm1 : 2 ^ 63 ≤ fp.mant) (hm2 : fp.mant < 2 ^ 64)
+    (hp2 : -fp.exp + 1 ≤ 64) (hfe : fp.exp < 2 ^ 20) {e : Int} (he : e < 0) (he' : -(2 ^ 28 : Int) < e)
+    (k q : Nat) (hk : k = (fp.exp + 64 - p - 1).toNat) (hq : q = fp.mant / 2 ^ shiftOf p fp.exp)
+    (hfin : k * 2 ^ (p - 1) + q < F.fmt.infBits)
+    (hlo : k * 2 ^ (p - 1) + q ≤ roundNE F.fmt M (radix ^ (-e).toNat))
+    (hhi : roundNE F.fmt M (radix ^ (-e).toNat) ≤ k * 2 ^ (p - 1) + q + 1)
+    (hfitT : (2 * q + 1) * h ^ (-e).toNat * 2 ^ ((k : Int) - F.C.exponentBias - e).toNat < 2 ^ (64 * E.L.bigintLimbs))
+    (hfitR : M * 2 ^ (-((k : Int) - F.C.exponentBias - e)).toNat < 2 ^ (64 * E.L.bigintLimbs)) :
+    ∃ r, negativeDigitComp E F radix M fp e = some r ∧ 0 ≤ r.exp ∧
+      extendedToFloat F r = roundNE F.fmt M (radix ^ (-e).toNat) := by
+  have hp := lay.hp; have hp64 := lay.hp64; have heb := lay.heb
+  have hfp : F.fmt.p = p := by rw [lay.fmt]
+  obtain ⟨qa, qb, qc, qd, qe⟩ := quot_bounds hp (by omega) hm1 hm2 fp.exp hp2
+  rw [← hk, ← hq] at qa
+  rw [← hq] at qb
+  have hhpos : 0 < h := by
+    have := Th.split
+    apply Nat.pos_of_ne_zero; intro h0
+    rw [h0] at this
+    split at this <;> simp_all
+  exact negativeDigitComp_core lay hden hdbg hr Th T2 hM fp hm1 hm2 hp2 hfe he he' k q hk hq hfin
+    (roundNE_of_weak_bracket lay.wf (Nat.pow_pos (by omega) : 0 < radix ^ (-e).toNat) k q
+      (by rw [hfp]; exact fun h0 => (qa h0).2.1) (by rw [hfp]; exact qb) (by rw [hfp]; exact hfin)
+      (by rw [hfp]; exact hlo) (by rw [hfp]; exact hhi)) hfitT hfitR
 
 end LexVerif.Proof.Slow
